@@ -8,6 +8,7 @@ import NurbsVerif.Lemmas.Span
 import NurbsVerif.Lemmas.AssembleLayout
 import NurbsVerif.Lemmas.LayoutBoundaryVol
 import NurbsVerif.Lemmas.FitParams
+import NurbsVerif.Lemmas.LayoutSweepGen
 
 /-!
 # C13  One control-net layout convention across all modules
@@ -257,8 +258,12 @@ theorem sweep_curve_sections (tr : α → α) (kvGen : κ) (C : Crv α κ) :
 
 /-- `sweep_vector` on a surface returns a volume of degree `pu × pv × 1` with sizes `su × sv × 2`, and its
     two `w`-sections (the `'uv'` family of `extract_surfaces`) are the input surface and its translate.
-    (Mostly unfolding (`rfl` components of the constructed record); the substantive part is the last conjunct.) -/
-theorem sweep_surface_sections (tr : α → α) (kvGen : κ) (S : Srf α κ) (h : S.WF) :
+    (Mostly unfolding (`rfl` components of the constructed record); the substantive part is the last conjunct.)
+    Guard of the code (and of the driver op `sweeps`): the control points have at least 3 spatial coordinates
+    (`rat = true`: homogeneous points, `d` counts the weight, so `4 ≤ d`) – `Volume.set_ctrlpts` raises "A volume
+    should be at least 3-dimensional" for a planar surface, while the model would return. -/
+theorem sweep_surface_sections {β : Type} (tr : List β → List β) (kvGen : κ) (S : Srf (List β) κ) (h : S.WF)
+    (d : ℕ) (hd : ∀ p ∈ S.pts, p.length = d) (rat : Bool) (h3 : (if rat then 4 else 3) ≤ d) :
     ∃ V, sweepSurface tr kvGen S = some V ∧ V.du = S.du ∧ V.dv = S.dv ∧ V.dw = 1 ∧ V.kw = kvGen ∧
       V.su = S.su ∧ V.sv = S.sv ∧ V.sw = 2 ∧ extractSurfacesUV V = [S, { S with pts := S.pts.map tr }] :=
   ⟨_, sweepSurface_eq tr kvGen S, rfl, rfl, rfl, rfl, rfl, rfl, rfl, extractSurfacesUV_sweep tr kvGen S h⟩
@@ -346,14 +351,9 @@ theorem volume_eval_through_extracted_surfaces_at {K : Type} [Field K] [LinearOr
    volumePointAt_extractUW V d h hd ku kv kw hpu hpv hpw hku hkv hkw u v w j,
    volumePointAt_extractVW V d h hd ku kv kw hpu hpv hpw hku hkv hkw u v w j⟩
 
-/-- a 2×3×2 volume of degrees (1, 2, 1) with planar control points (used only in the examples below) -/
-def c13EvalVol : Vol (List ℚ) (ℕ → ℚ) :=
-  { du := 1, dv := 2, dw := 1, ku := fnOf [0,0,1,1], kv := fnOf [0,0,0,1,1,1], kw := fnOf [0,0,1,1],
-    su := 2, sv := 3, sw := 2,
-    pts := [[0,0],[1,2],[2,0],[3,5],[4,1],[5,5],[6,0],[7,3],[8,8],[9,1],[10,0],[11,7]] }
-
-/-- non-vacuity: the hypotheses hold … -/
-example : c13EvalVol.WF ∧ (∀ p ∈ c13EvalVol.pts, p.length = 2) := by
+/-- non-vacuity: the hypotheses hold on `c13EvalVol` (Lemmas/LayoutSweepGen.lean: a 2×3×2 volume of degrees (1, 2, 1)
+    with 3-D control points – a net `BSpline.Volume.set_ctrlpts` accepts) … -/
+example : c13EvalVol.WF ∧ (∀ p ∈ c13EvalVol.pts, p.length = 3) := by
   refine ⟨by unfold Vol.WF; decide, by decide⟩
 
 /-- … and both sides are the same point at `(1/3, 1/2, 1/4)` -/
@@ -445,10 +445,12 @@ theorem sweep_curve_boundary_points {K : Type} [Field K] [LinearOrder K] [IsStri
 
 /-- **Sweep of a surface, evaluated**: the volume returned by `sweep_vector` satisfies
     `V(u, v, w_min) = S(u, v)` and `V(u, v, w_max) = S'(u, v)`, `S'` the surface with the translated control
-    points – every `(u, v)`, every coordinate. -/
+    points – every `(u, v)`, every coordinate.  Guard of the code / driver op: at least 3 spatial coordinates
+    (`h3`; `rat = true` for homogeneous points: `4 ≤ d`) – a planar surface makes `Volume.set_ctrlpts` raise. -/
 theorem sweep_surface_boundary_points {K : Type} [Field K] [LinearOrder K] [IsStrictOrderedRing K]
     (tr : List K → List K) (kvGen : ℕ → K) (S : Srf (List K) (ℕ → K)) (d : ℕ)
     (h : S.WF) (hdu : S.du + 1 ≤ S.su) (hdv : S.dv + 1 ≤ S.sv) (hd : ∀ p ∈ S.pts, p.length = d)
+    (rat : Bool) (h3 : (if rat then 4 else 3) ≤ d)
     (htr : ∀ p ∈ S.pts, (tr p).length = d) (hk : KnotsOk 1 kvGen 2) (hc : ClampedOk 1 kvGen 2) (u v : K) (j : ℕ) :
     ∃ V, sweepSurface tr kvGen S = some V ∧
       (volumePoint V.du V.dv V.dw V.ku V.kv V.kw V.su V.sv V.sw V.pts u v (kvGen 1)).getD j 0
@@ -456,6 +458,44 @@ theorem sweep_surface_boundary_points {K : Type} [Field K] [LinearOrder K] [IsSt
       (volumePoint V.du V.dv V.dw V.ku V.kv V.kw V.su V.sv V.sw V.pts u v (kvGen 2)).getD j 0
         = (surfacePoint S.du S.dv S.ku S.kv S.su S.sv (S.pts.map tr) u v).getD j 0 :=
   sweepSurface_boundary tr kvGen S d h hdu hdv hd htr hk hc u v j
+
+/-- **The sweep knot vector is `knotvector.generate(1, 2)`** (model `knotGenerate 1 2 true tol`, `tol` = the literal
+    `10e-8 < 1` of `linspace`; what the driver ops `sweepc` / `sweeps` pass as `kvGen`): it is `[0, 0, 1, 1]`, meets
+    `KnotsOk` / `ClampedOk`, and its domain is `[0, 1]`. -/
+theorem sweep_knot_vector_generated {K : Type} [Field K] [LinearOrder K] [IsStrictOrderedRing K] (tol : K) (htol : tol < 1) :
+    (knotGenerate 1 2 true tol : List K) = [0, 0, 1, 1] ∧
+    KnotsOk 1 (fnOf (knotGenerate 1 2 true tol : List K)) 2 ∧ ClampedOk 1 (fnOf (knotGenerate 1 2 true tol : List K)) 2 ∧
+    fnOf (knotGenerate 1 2 true tol : List K) 1 = 0 ∧ fnOf (knotGenerate 1 2 true tol : List K) 2 = 1 :=
+  ⟨knotGenerate_one_two tol htol, genKv_knotsOk tol htol, genKv_clampedOk tol htol, genKv_ends tol htol⟩
+
+/-- … hence, with the knot vector the code generates, no hypothesis on `kvGen` is left: `S(0, v) = C(v)`,
+    `S(1, v) = C'(v)` for the swept curve … -/
+theorem sweep_curve_boundary_points_generated {K : Type} [Field K] [LinearOrder K] [IsStrictOrderedRing K]
+    (tr : List K → List K) (tol : K) (htol : tol < 1) (C : Crv (List K) (ℕ → K)) (d : ℕ)
+    (hn : 2 ≤ C.pts.length) (hdeg : C.deg + 1 ≤ C.pts.length) (hd : ∀ p ∈ C.pts, p.length = d)
+    (htr : ∀ p ∈ C.pts, (tr p).length = d) (v : K) (j : ℕ) :
+    ∃ S, sweepCurve tr (fnOf (knotGenerate 1 2 true tol : List K)) C = some S ∧
+      (surfacePoint S.du S.dv S.ku S.kv S.su S.sv S.pts 0 v).getD j 0 = (curvePoint C.deg C.kv C.pts v).getD j 0 ∧
+      (surfacePoint S.du S.dv S.ku S.kv S.su S.sv S.pts 1 v).getD j 0
+        = (curvePoint C.deg C.kv (C.pts.map tr) v).getD j 0 := by
+  have h := sweepCurve_boundary tr (fnOf (knotGenerate 1 2 true tol : List K)) C d hn hdeg hd htr
+    (genKv_knotsOk tol htol) (genKv_clampedOk tol htol) v j
+  rwa [(genKv_ends tol htol).1, (genKv_ends tol htol).2] at h
+
+/-- … and `V(u, v, 0) = S(u, v)`, `V(u, v, 1) = S'(u, v)` for the swept surface (3-D guard as above). -/
+theorem sweep_surface_boundary_points_generated {K : Type} [Field K] [LinearOrder K] [IsStrictOrderedRing K]
+    (tr : List K → List K) (tol : K) (htol : tol < 1) (S : Srf (List K) (ℕ → K)) (d : ℕ)
+    (h : S.WF) (hdu : S.du + 1 ≤ S.su) (hdv : S.dv + 1 ≤ S.sv) (hd : ∀ p ∈ S.pts, p.length = d)
+    (rat : Bool) (h3 : (if rat then 4 else 3) ≤ d)
+    (htr : ∀ p ∈ S.pts, (tr p).length = d) (u v : K) (j : ℕ) :
+    ∃ V, sweepSurface tr (fnOf (knotGenerate 1 2 true tol : List K)) S = some V ∧
+      (volumePoint V.du V.dv V.dw V.ku V.kv V.kw V.su V.sv V.sw V.pts u v 0).getD j 0
+        = (surfacePoint S.du S.dv S.ku S.kv S.su S.sv S.pts u v).getD j 0 ∧
+      (volumePoint V.du V.dv V.dw V.ku V.kv V.kw V.su V.sv V.sw V.pts u v 1).getD j 0
+        = (surfacePoint S.du S.dv S.ku S.kv S.su S.sv (S.pts.map tr) u v).getD j 0 := by
+  have h := sweepSurface_boundary tr (fnOf (knotGenerate 1 2 true tol : List K)) S d h hdu hdv hd htr
+    (genKv_knotsOk tol htol) (genKv_clampedOk tol htol) u v j
+  rwa [(genKv_ends tol htol).1, (genKv_ends tol htol).2] at h
 
 /-- non-vacuity: the knot function of `knotvector.generate(1, 2) = [0, 0, 1, 1]` meets `KnotsOk` … -/
 example : KnotsOk 1 (fnOf ([0,0,1,1] : List ℚ)) 2 where
@@ -470,6 +510,16 @@ example : ClampedOk 1 (fnOf ([0,0,1,1] : List ℚ)) 2 where
   stop := by intro i h1 h2; obtain rfl : i = 2 := by omega
              rfl
   first := by decide +kernel
+
+/-- … the sweep theorem with the generated knot vector applied to the 3-D bilinear surface `c13SweepSrf` and the
+    translation by `(5, 7, 1)` (`tol = 10e-8`) -/
+example (u v : ℚ) (j : ℕ) : ∃ V, sweepSurface (pointTranslate [5,7,1]) (fnOf (knotGenerate 1 2 true (1/10000000 : ℚ))) c13SweepSrf = some V ∧
+    (volumePoint V.du V.dv V.dw V.ku V.kv V.kw V.su V.sv V.sw V.pts u v 1).getD j 0
+      = (surfacePoint c13SweepSrf.du c13SweepSrf.dv c13SweepSrf.ku c13SweepSrf.kv c13SweepSrf.su c13SweepSrf.sv
+          (c13SweepSrf.pts.map (pointTranslate [5,7,1])) u v).getD j 0 := by
+  obtain ⟨V, h1, _, h2⟩ := sweep_surface_boundary_points_generated (pointTranslate [5,7,1]) (1/10000000 : ℚ) (by norm_num)
+    c13SweepSrf 3 (by unfold Srf.WF; decide) (by decide) (by decide) (by decide) false (by decide) (by decide +kernel) u v j
+  exact ⟨V, h1, h2⟩
 
 /-- … the `v` direction of `c13EvalVol` (degree 2, knots `[0,0,0,1,1,1]`, 3 points) too, and on that volume
     the `v_max` boundary at `(1/3, ·, 1/4)` is the last `'uw'` surface at `(1/3, 1/4)` -/
